@@ -10,50 +10,51 @@ use vh_lite::{read_cases, drive, drive_group, quiet_panics, Out};
 
 mod tc_right__par;
 mod tc_left__topar;
-mod tc_left__redecl;
-mod tc_left__str;
-mod tc_nonlin__perm1;
-mod mutual__par;
-mod mutual__src1;
-mod mutual__perm2;
-mod scc_chain__pari;
-mod scc_chain__u64;
-mod repeated__ser;
-mod repeated__u64;
-mod three_dyn__perm2;
-mod four_dyn__pari;
-mod conds__src1;
-mod conds__perm2;
-mod count_up__pari;
-mod multi_head__perm1;
-mod facts__mrt;
-mod facts__runpar;
-mod facts__strpar;
-mod opt_cols__src1;
-mod cartesian__par;
-mod same_gen__perm2;
-mod not_reorderable__pari;
-mod pre_join_rec__par;
-mod two_inputs__ser;
-mod two_inputs__src0;
-mod two_inputs__perm1;
-mod wild__par;
-mod ternary__permpar;
-mod bound_mix__perm2;
-mod join_chain__pari;
-mod cond_simple_join__ser;
-mod zero_arity__ser;
-mod lag_right__pari;
-mod lag_right__u64;
-mod lag_three__par;
-mod lag_mid__perm2;
-mod lag_late_delta__pari;
-mod multi_head_rec__exp;
-mod sp_dual__mrt;
-mod sp_dual__runpar;
-mod sp_weighted__pari;
-mod set_reach__ser;
-mod set_reach__src0;
+mod tc_left__srcred;
+mod tc_left__permpar;
+mod tc_nonlin__topar;
+mod mutual__ser;
+mod mutual__src0;
+mod mutual__srcpar;
+mod scc_chain__ser;
+mod scc_chain__permpar;
+mod consts__par;
+mod repeated__permpar;
+mod three_dyn__topar;
+mod four_dyn__ser;
+mod conds__gen;
+mod conds__runpar;
+mod expr_args__pari;
+mod multi_head__pari;
+mod facts__par;
+mod facts__srcto;
+mod facts__ren;
+mod opt_cols__run;
+mod opt_cols__redecl;
+mod same_gen__par;
+mod same_gen__str;
+mod not_reorderable__perm1;
+mod pre_join_rec__topar;
+mod two_inputs__to;
+mod two_inputs__srcto;
+mod two_inputs__ren;
+mod ternary__ser;
+mod ternary__u64;
+mod bound_mix__permpar;
+mod join_chain__perm2;
+mod cond_simple_join__pari;
+mod zero_arity__pari;
+mod lag_right__topar;
+mod lag_left__ser;
+mod lag_three__to;
+mod lag_mid__permpar;
+mod lag_late_delta__topar;
+mod sp_dual__ser;
+mod sp_dual__src0;
+mod sp_dual__srcpar;
+mod sp_weighted__to;
+mod set_reach__par;
+mod set_reach__src1;
 mod bset__ser;
 mod cp__to;
 mod bool_lat__ser;
@@ -61,101 +62,104 @@ mod lat_multi_improve__pari;
 mod lat_count_all__ser;
 mod lat_input__pari;
 mod lat_input__src2;
-mod count_paths__pari;
-mod count_paths__src2;
-mod neg_basic__pari;
-mod neg_basic__src2;
-mod neg_basic__ren;
-mod agg_depth__par;
-mod agg_lattice__topar;
-mod neg_rec_after__exppar;
-mod agg_empty__topar;
-mod agg_const_args__pari;
-mod disj__pari;
-mod disj__src2;
-mod disj__ren;
-mod disj_nested__exppar;
-mod rep_expr__pari;
-mod neg_in_disj__ser;
-mod mac_basic__to;
-mod mac_basic__srcto;
-mod mac_capture__par;
-mod mac_nested__exppar;
-mod mac_disj__pari;
-mod stress_rel__pari;
-mod rnd_core_03__par;
-mod rnd_core_06__ser;
-mod rnd_core_08__pari;
-mod rnd_core_11__par;
-mod rnd_core_14__ser;
-mod rnd_core_16__pari;
-mod rnd_core_19__par;
-mod rnd_core_22__ser;
-mod rnd_core_24__pari;
-mod rnd_core_27__par;
-mod rnd_core_30__ser;
-mod rnd_agg_02__pari;
-mod rnd_agg_05__par;
-mod rnd_agg_08__ser;
-mod rnd_agg_10__pari;
-mod rnd_agg_13__par;
-mod rnd_prec_01__ser;
-mod rnd_prec_02__to;
-mod rnd_prec_04__par;
-mod rnd_prec_05__topar;
-mod rnd_prec_07__pari;
-mod rnd_prea_01__ser;
-mod rnd_prea_03__pari;
-mod rnd_prea_06__par;
+mod count_paths__par;
+mod count_paths__src1;
+mod neg_basic__ser;
+mod neg_basic__src0;
+mod neg_basic__srcpar;
+mod agg_minmaxsum__par;
+mod agg_lattice__par;
+mod neg_rec_after__par;
+mod agg_empty__par;
+mod agg_empty_rel__topar;
+mod agg_pre_join__pari;
+mod disj__gen;
+mod disj__runpar;
+mod disj_nested__ser;
+mod pat_args__exp;
+mod multi_head_disj__par;
+mod neg_in_disj__exppar;
+mod mac_basic__gen;
+mod mac_basic__runpar;
+mod mac_capture__exppar;
+mod mac_gensym_disj__pari;
+mod mac_block__ser;
+mod mac_disj__exp;
+mod rnd_core_01__ser;
+mod rnd_core_03__pari;
+mod rnd_core_06__par;
+mod rnd_core_09__ser;
+mod rnd_core_11__pari;
+mod rnd_core_14__par;
+mod rnd_core_17__ser;
+mod rnd_core_19__pari;
+mod rnd_core_22__par;
+mod rnd_core_25__ser;
+mod rnd_core_27__pari;
+mod rnd_core_30__par;
+mod rnd_agg_03__ser;
+mod rnd_agg_05__pari;
+mod rnd_agg_08__par;
+mod rnd_agg_11__ser;
+mod rnd_agg_13__pari;
+mod rnd_prec_01__par;
+mod rnd_prec_02__topar;
+mod rnd_prec_04__pari;
+mod rnd_prec_06__ser;
+mod rnd_prec_07__to;
+mod rnd_prea_01__par;
+mod rnd_prea_04__ser;
+mod rnd_prea_06__pari;
 
 fn lookup(name: &str) -> fn() -> Box<dyn Driven> {
    match name {
       "tc_right__par" => tc_right__par::make,
       "tc_left__topar" => tc_left__topar::make,
-      "tc_left__redecl" => tc_left__redecl::make,
-      "tc_left__str" => tc_left__str::make,
-      "tc_nonlin__perm1" => tc_nonlin__perm1::make,
-      "mutual__par" => mutual__par::make,
-      "mutual__src1" => mutual__src1::make,
-      "mutual__perm2" => mutual__perm2::make,
-      "scc_chain__pari" => scc_chain__pari::make,
-      "scc_chain__u64" => scc_chain__u64::make,
-      "repeated__ser" => repeated__ser::make,
-      "repeated__u64" => repeated__u64::make,
-      "three_dyn__perm2" => three_dyn__perm2::make,
-      "four_dyn__pari" => four_dyn__pari::make,
-      "conds__src1" => conds__src1::make,
-      "conds__perm2" => conds__perm2::make,
-      "count_up__pari" => count_up__pari::make,
-      "multi_head__perm1" => multi_head__perm1::make,
-      "facts__mrt" => facts__mrt::make,
-      "facts__runpar" => facts__runpar::make,
-      "facts__strpar" => facts__strpar::make,
-      "opt_cols__src1" => opt_cols__src1::make,
-      "cartesian__par" => cartesian__par::make,
-      "same_gen__perm2" => same_gen__perm2::make,
-      "not_reorderable__pari" => not_reorderable__pari::make,
-      "pre_join_rec__par" => pre_join_rec__par::make,
-      "two_inputs__ser" => two_inputs__ser::make,
-      "two_inputs__src0" => two_inputs__src0::make,
-      "two_inputs__perm1" => two_inputs__perm1::make,
-      "wild__par" => wild__par::make,
-      "ternary__permpar" => ternary__permpar::make,
-      "bound_mix__perm2" => bound_mix__perm2::make,
-      "join_chain__pari" => join_chain__pari::make,
-      "cond_simple_join__ser" => cond_simple_join__ser::make,
-      "zero_arity__ser" => zero_arity__ser::make,
-      "lag_right__pari" => lag_right__pari::make,
-      "lag_right__u64" => lag_right__u64::make,
-      "lag_three__par" => lag_three__par::make,
-      "lag_mid__perm2" => lag_mid__perm2::make,
-      "lag_late_delta__pari" => lag_late_delta__pari::make,
-      "multi_head_rec__exp" => multi_head_rec__exp::make,
-      "sp_dual__mrt" => sp_dual__mrt::make,
-      "sp_dual__runpar" => sp_dual__runpar::make,
-      "sp_weighted__pari" => sp_weighted__pari::make,
-      "set_reach__ser" => set_reach__ser::make,
-      "set_reach__src0" => set_reach__src0::make,
+      "tc_left__srcred" => tc_left__srcred::make,
+      "tc_left__permpar" => tc_left__permpar::make,
+      "tc_nonlin__topar" => tc_nonlin__topar::make,
+      "mutual__ser" => mutual__ser::make,
+      "mutual__src0" => mutual__src0::make,
+      "mutual__srcpar" => mutual__srcpar::make,
+      "scc_chain__ser" => scc_chain__ser::make,
+      "scc_chain__permpar" => scc_chain__permpar::make,
+      "consts__par" => consts__par::make,
+      "repeated__permpar" => repeated__permpar::make,
+      "three_dyn__topar" => three_dyn__topar::make,
+      "four_dyn__ser" => four_dyn__ser::make,
+      "conds__gen" => conds__gen::make,
+      "conds__runpar" => conds__runpar::make,
+      "expr_args__pari" => expr_args__pari::make,
+      "multi_head__pari" => multi_head__pari::make,
+      "facts__par" => facts__par::make,
+      "facts__srcto" => facts__srcto::make,
+      "facts__ren" => facts__ren::make,
+      "opt_cols__run" => opt_cols__run::make,
+      "opt_cols__redecl" => opt_cols__redecl::make,
+      "same_gen__par" => same_gen__par::make,
+      "same_gen__str" => same_gen__str::make,
+      "not_reorderable__perm1" => not_reorderable__perm1::make,
+      "pre_join_rec__topar" => pre_join_rec__topar::make,
+      "two_inputs__to" => two_inputs__to::make,
+      "two_inputs__srcto" => two_inputs__srcto::make,
+      "two_inputs__ren" => two_inputs__ren::make,
+      "ternary__ser" => ternary__ser::make,
+      "ternary__u64" => ternary__u64::make,
+      "bound_mix__permpar" => bound_mix__permpar::make,
+      "join_chain__perm2" => join_chain__perm2::make,
+      "cond_simple_join__pari" => cond_simple_join__pari::make,
+      "zero_arity__pari" => zero_arity__pari::make,
+      "lag_right__topar" => lag_right__topar::make,
+      "lag_left__ser" => lag_left__ser::make,
+      "lag_three__to" => lag_three__to::make,
+      "lag_mid__permpar" => lag_mid__permpar::make,
+      "lag_late_delta__topar" => lag_late_delta__topar::make,
+      "sp_dual__ser" => sp_dual__ser::make,
+      "sp_dual__src0" => sp_dual__src0::make,
+      "sp_dual__srcpar" => sp_dual__srcpar::make,
+      "sp_weighted__to" => sp_weighted__to::make,
+      "set_reach__par" => set_reach__par::make,
+      "set_reach__src1" => set_reach__src1::make,
       "bset__ser" => bset__ser::make,
       "cp__to" => cp__to::make,
       "bool_lat__ser" => bool_lat__ser::make,
@@ -163,52 +167,54 @@ fn lookup(name: &str) -> fn() -> Box<dyn Driven> {
       "lat_count_all__ser" => lat_count_all__ser::make,
       "lat_input__pari" => lat_input__pari::make,
       "lat_input__src2" => lat_input__src2::make,
-      "count_paths__pari" => count_paths__pari::make,
-      "count_paths__src2" => count_paths__src2::make,
-      "neg_basic__pari" => neg_basic__pari::make,
-      "neg_basic__src2" => neg_basic__src2::make,
-      "neg_basic__ren" => neg_basic__ren::make,
-      "agg_depth__par" => agg_depth__par::make,
-      "agg_lattice__topar" => agg_lattice__topar::make,
-      "neg_rec_after__exppar" => neg_rec_after__exppar::make,
-      "agg_empty__topar" => agg_empty__topar::make,
-      "agg_const_args__pari" => agg_const_args__pari::make,
-      "disj__pari" => disj__pari::make,
-      "disj__src2" => disj__src2::make,
-      "disj__ren" => disj__ren::make,
-      "disj_nested__exppar" => disj_nested__exppar::make,
-      "rep_expr__pari" => rep_expr__pari::make,
-      "neg_in_disj__ser" => neg_in_disj__ser::make,
-      "mac_basic__to" => mac_basic__to::make,
-      "mac_basic__srcto" => mac_basic__srcto::make,
-      "mac_capture__par" => mac_capture__par::make,
-      "mac_nested__exppar" => mac_nested__exppar::make,
-      "mac_disj__pari" => mac_disj__pari::make,
-      "stress_rel__pari" => stress_rel__pari::make,
-      "rnd_core_03__par" => rnd_core_03__par::make,
-      "rnd_core_06__ser" => rnd_core_06__ser::make,
-      "rnd_core_08__pari" => rnd_core_08__pari::make,
-      "rnd_core_11__par" => rnd_core_11__par::make,
-      "rnd_core_14__ser" => rnd_core_14__ser::make,
-      "rnd_core_16__pari" => rnd_core_16__pari::make,
-      "rnd_core_19__par" => rnd_core_19__par::make,
-      "rnd_core_22__ser" => rnd_core_22__ser::make,
-      "rnd_core_24__pari" => rnd_core_24__pari::make,
-      "rnd_core_27__par" => rnd_core_27__par::make,
-      "rnd_core_30__ser" => rnd_core_30__ser::make,
-      "rnd_agg_02__pari" => rnd_agg_02__pari::make,
-      "rnd_agg_05__par" => rnd_agg_05__par::make,
-      "rnd_agg_08__ser" => rnd_agg_08__ser::make,
-      "rnd_agg_10__pari" => rnd_agg_10__pari::make,
-      "rnd_agg_13__par" => rnd_agg_13__par::make,
-      "rnd_prec_01__ser" => rnd_prec_01__ser::make,
-      "rnd_prec_02__to" => rnd_prec_02__to::make,
-      "rnd_prec_04__par" => rnd_prec_04__par::make,
-      "rnd_prec_05__topar" => rnd_prec_05__topar::make,
-      "rnd_prec_07__pari" => rnd_prec_07__pari::make,
-      "rnd_prea_01__ser" => rnd_prea_01__ser::make,
-      "rnd_prea_03__pari" => rnd_prea_03__pari::make,
-      "rnd_prea_06__par" => rnd_prea_06__par::make,
+      "count_paths__par" => count_paths__par::make,
+      "count_paths__src1" => count_paths__src1::make,
+      "neg_basic__ser" => neg_basic__ser::make,
+      "neg_basic__src0" => neg_basic__src0::make,
+      "neg_basic__srcpar" => neg_basic__srcpar::make,
+      "agg_minmaxsum__par" => agg_minmaxsum__par::make,
+      "agg_lattice__par" => agg_lattice__par::make,
+      "neg_rec_after__par" => neg_rec_after__par::make,
+      "agg_empty__par" => agg_empty__par::make,
+      "agg_empty_rel__topar" => agg_empty_rel__topar::make,
+      "agg_pre_join__pari" => agg_pre_join__pari::make,
+      "disj__gen" => disj__gen::make,
+      "disj__runpar" => disj__runpar::make,
+      "disj_nested__ser" => disj_nested__ser::make,
+      "pat_args__exp" => pat_args__exp::make,
+      "multi_head_disj__par" => multi_head_disj__par::make,
+      "neg_in_disj__exppar" => neg_in_disj__exppar::make,
+      "mac_basic__gen" => mac_basic__gen::make,
+      "mac_basic__runpar" => mac_basic__runpar::make,
+      "mac_capture__exppar" => mac_capture__exppar::make,
+      "mac_gensym_disj__pari" => mac_gensym_disj__pari::make,
+      "mac_block__ser" => mac_block__ser::make,
+      "mac_disj__exp" => mac_disj__exp::make,
+      "rnd_core_01__ser" => rnd_core_01__ser::make,
+      "rnd_core_03__pari" => rnd_core_03__pari::make,
+      "rnd_core_06__par" => rnd_core_06__par::make,
+      "rnd_core_09__ser" => rnd_core_09__ser::make,
+      "rnd_core_11__pari" => rnd_core_11__pari::make,
+      "rnd_core_14__par" => rnd_core_14__par::make,
+      "rnd_core_17__ser" => rnd_core_17__ser::make,
+      "rnd_core_19__pari" => rnd_core_19__pari::make,
+      "rnd_core_22__par" => rnd_core_22__par::make,
+      "rnd_core_25__ser" => rnd_core_25__ser::make,
+      "rnd_core_27__pari" => rnd_core_27__pari::make,
+      "rnd_core_30__par" => rnd_core_30__par::make,
+      "rnd_agg_03__ser" => rnd_agg_03__ser::make,
+      "rnd_agg_05__pari" => rnd_agg_05__pari::make,
+      "rnd_agg_08__par" => rnd_agg_08__par::make,
+      "rnd_agg_11__ser" => rnd_agg_11__ser::make,
+      "rnd_agg_13__pari" => rnd_agg_13__pari::make,
+      "rnd_prec_01__par" => rnd_prec_01__par::make,
+      "rnd_prec_02__topar" => rnd_prec_02__topar::make,
+      "rnd_prec_04__pari" => rnd_prec_04__pari::make,
+      "rnd_prec_06__ser" => rnd_prec_06__ser::make,
+      "rnd_prec_07__to" => rnd_prec_07__to::make,
+      "rnd_prea_01__par" => rnd_prea_01__par::make,
+      "rnd_prea_04__ser" => rnd_prea_04__ser::make,
+      "rnd_prea_06__pari" => rnd_prea_06__pari::make,
       _ => panic!("no such program variant in this shard: {}", name),
    }
 }
